@@ -97,6 +97,7 @@ pub struct Connection<S, Stat, Disc, Filt, Stra, Auth, Loca> {
 
     // config and internal state
     keep_alive_id: Option<u64>,
+    keep_alive_missed: bool,
     keep_alive_interval: Interval,
     auth_secret: Option<Vec<u8>>,
     max_packet_length: VarInt,
@@ -146,6 +147,7 @@ where
             localization_adapter,
             // config and internal state
             keep_alive_id: None,
+            keep_alive_missed: false,
             keep_alive_interval: interval,
             auth_secret: None,
             max_packet_length: DEFAULT_MAX_PACKET_LENGTH,
@@ -222,6 +224,8 @@ where
                             "disconnect_timeout",
                             &[]
                         ).await?;
+                        // remember the decision, this future may be dropped while the packet is sent
+                        self.keep_alive_missed = true;
                         self.send_packet(conf_out::DisconnectPacket { reason }).await?;
                         return Err(Error::MissedKeepAlive);
                     }
@@ -297,6 +301,15 @@ where
                 return Err(std::io::Error::from(std::io::ErrorKind::WriteZero).into());
             }
             self.write_buffer.drain(..written);
+        }
+        Ok(())
+    }
+
+    /** Ends the connection if a missed keep-alive was detected while a backend call completed. */
+    async fn check_keep_alive_missed(&mut self) -> Result<(), Error> {
+        if self.keep_alive_missed {
+            self.flush_packets().await?;
+            return Err(Error::MissedKeepAlive);
         }
         Ok(())
     }
@@ -585,6 +598,7 @@ where
             result = self.keep_alive() => result?,
             maybe_targets = discovery_adapter.discover() => maybe_targets?,
         };
+        self.check_keep_alive_missed().await?;
 
         debug!("filtering targets");
         let filter_adapter = self.filter_adapter.clone();
@@ -598,6 +612,7 @@ where
                 targets,
             ) => maybe_targets?,
         };
+        self.check_keep_alive_missed().await?;
 
         debug!("selecting target");
         let strategy_adapter = self.strategy_adapter.clone();
@@ -611,6 +626,7 @@ where
                 targets,
             ) => maybe_target?,
         };
+        self.check_keep_alive_missed().await?;
 
         // disconnect if not target found
         let Some(target) = target else {
